@@ -104,14 +104,16 @@ inductive Res where
   | unsat
 deriving Repr, BEq
 
-/-- `mul_by_constant(s, P)` with `s` reduced modulo `r`: in both branches the identity is swapped
-for the generator before the (incomplete) multiplication and swapped back afterwards;
-* at most 128 bits: `mul_by_u128(u128OfDigits s, P')`;
-* otherwise `msm_by_le_bits` on the bits of `s`. -/
+/-- `mul_by_constant(s, P)` with `s` reduced modulo `r`:
+* at most 128 bits: `mul_by_u128(u128OfDigits s, P')` with the identity swapped for the generator
+  before the (incomplete) multiplication and swapped back afterwards;
+* otherwise `msm_by_le_bits`, whose `windowed_msm` asserts that the base is not the identity
+  (recorded finding: the trait promises that the base may be the identity). -/
 def mulByConstant (s : Nat) (P : WPt) : Res :=
-  if P.isId then .ok E.id
-  else if s < 2 ^ 128 then .ok (E.smul (u128OfDigits s) P)
-  else .ok (E.smul s P)
+  if s < 2 ^ 128 then
+    if P.isId then .ok E.id else .ok (E.smul (u128OfDigits s) P)
+  else
+    if P.isId then .unsat else .ok (E.smul s P)
 
 /-- `msm` / `msm_by_bounded_scalars` / `msm_by_le_bits`-through-`mul`: `Σ sᵢ·Pᵢ`. -/
 def msm (terms : List (Nat × WPt)) : WPt :=
